@@ -4,8 +4,6 @@ import (
 	"fmt"
 	"os"
 	"strings"
-
-	"github.com/jmeaster30/vore/libvore/algo"
 )
 
 type PathEntryType int
@@ -53,35 +51,31 @@ func ParsePath(path string) *Path {
 }
 
 func pathMatches(target string, matches string) bool {
-	if !strings.ContainsRune(matches, '*') {
-		return target == matches
-	}
-
-	matchParts := algo.Window(algo.SplitKeep(matches, "*"), 2)
-
-	result := true
-	for _, part := range matchParts {
-		if len(part) == 1 {
-			if part[0] != "*" && target != part[0] {
-				result = false
-			}
-			break
-		} else if part[0] == "*" {
-			splitStart := strings.Index(target, part[1])
-			if splitStart == -1 {
-				target = ""
-			} else {
-				target = target[splitStart:]
-			}
-		} else if strings.HasPrefix(target, part[0]) {
-			target = strings.TrimPrefix(target, part[0])
+	// '*' stands for any run of characters (also none); everything else
+	// matches itself.  When a literal part does not fit, the most recent
+	// star takes one more character and the match is retried from there.
+	t, p := 0, 0
+	star, mark := -1, 0
+	for t < len(target) {
+		if p < len(matches) && matches[p] == '*' {
+			star, mark = p, t
+			p++
+		} else if p < len(matches) && matches[p] == target[t] {
 			// FIXME doesn't account for relative folders ie `./docs/examples`
+			t++
+			p++
+		} else if star != -1 {
+			mark++
+			t = mark
+			p = star + 1
 		} else {
-			result = false
-			break
+			return false
 		}
 	}
-	return result
+	for p < len(matches) && matches[p] == '*' {
+		p++
+	}
+	return p == len(matches)
 }
 
 func directoryExists(entries []os.DirEntry, name string) bool {
